@@ -147,6 +147,8 @@ func where(p placement) string {
 func expectedText(e *expectation, mode string) string {
 	if mode == modeSeparate {
 		switch {
+		case e.MissingPkg && e.PkgCyclic:
+			return "an import-cycle error (an imported file has no go_package, and the go_package graph is cyclic however such files are counted)"
 		case e.MissingPkg:
 			return "an error (an imported file has no go_package)"
 		case e.PkgCyclic:
@@ -266,7 +268,7 @@ func (w *worker) explore(s *spec, places []placement, onlyMode string, assignIdx
 				rank := []int{shapeRank[e.Shape], len(e.Reach), len(s.edges()), s.N, oddness(s, e, mode), edgeCode(s), assignIdx, placementIndex(p), mi}
 				x.col.add(f.Sig, f.Msg, rank, func() map[string]any {
 					c := map[string]any{
-						"kind": "graph", "n": s.N, "edges": s.edgeString(), "edge_pairs": s.edges(), "go_packages": s.Pkgs,
+						"kind": "graph", "n": s.N, "edges": s.edgeString(), "edge_pairs": s.edges(), "go_packages": s.Pkgs, "hollow": s.Hollow,
 						"mode": mode, "placement": map[string]string{"kind": p.Kind, "style": p.Style}, "root": p.rel(0),
 						"files": files, "shape": e.Shape, "reachable_files": e.Reach,
 						"file_graph_cyclic": e.FileCyclic, "go_package_graph_cyclic": e.PkgCyclic, "imported_file_without_go_package": e.MissingPkg,
@@ -407,7 +409,7 @@ func main() {
 		fmt.Sprintf("3:%d", 1<<1|1<<(3+2)|1<<(6+1)): "cycle below the root: f0 -> f1 -> f2 -> f1",
 		fmt.Sprintf("2:%d", 1<<1|1<<2):              "root re-imported: f0 -> f1 -> f0",
 	}
-	var graphsDone atomic.Int64
+	var graphsDone, hollowCases atomic.Int64
 	parallel(len(jobs), func(w *worker, i int) {
 		j := jobs[i]
 		for ai, pk := range assign[j.n] {
@@ -428,6 +430,13 @@ func main() {
 					label = l
 				}
 				w.explore(s, places, "", ai, nil, label)
+				// the same graph with ONE imported file that has no go_package turned into an index file (imports only)
+				for h := 1; h < j.n && j.n <= 3; h++ {
+					if pk[h] == "" && reachable(s, h) {
+						hollowCases.Add(1)
+						w.explore(s.withHollow(h), allPlacements[:1], "", ai, nil, "")
+					}
+				}
 			}
 		}
 		for mask := j.lo; mask < j.hi; mask++ {
@@ -473,6 +482,8 @@ func main() {
 	run.Coverage["distinct_nontrivial_meaning"] = "distinct (reachable sub-graph + go_package pattern up to renaming of non-root files, mode, observed outcome class) triples, measured on the flat/plain placement"
 	run.Coverage["graphs_per_n"] = graphsPerN
 	run.Coverage["graphs_enumerated"] = graphsDone.Load()
+	run.Coverage["index_file_cases"] = hollowCases.Load()
+	run.Coverage["index_file_cases_meaning"] = "graphs over <=3 files x go_package assignment, with one reachable imported file that has no go_package reduced to its import statements (it declares nothing); single-directory placement, both modes"
 	run.Coverage["go_package_assignments_per_n"] = map[string]int{"1": len(assign[1]), "2": len(assign[2]), "3": len(assign[3]), "4": len(assign[4])}
 	pn := []string{}
 	for _, p := range allPlacements {
@@ -496,7 +507,7 @@ func main() {
 	run.Coverage["workers"] = runtime.NumCPU()
 	run.Assume = append(run.Assume,
 		"type names are unique across files (E<i>, S<i>, M<i>); every message references one struct of each directly imported file; PackageName is always given, so a root without go_package is legal in both modes",
-		"separate mode: expected = error (any) if an imported file (the root counts when it is re-imported) has no go_package; else an error containing 'cycle' iff the go_package graph reachable from the root has a cycle (self-edges count: a file importing itself or a file of its own package); else no error. Nothing is asserted about the text of a separate-mode result except that it does not depend on placement/spelling",
+		"separate mode: expected = error if an imported file (the root counts when it is re-imported) has no go_package - any error when the go_package graph is acyclic with each package-less file counted as its own package, an error containing 'cycle' when it is cyclic even so; else an error containing 'cycle' iff the go_package graph reachable from the root has a cycle (self-edges count: a file importing itself or a file of its own package); else no error. Nothing is asserted about the text of a separate-mode result except that it does not depend on placement/spelling",
 		"combined mode on a cyclic file graph: only termination is asserted",
 		"combined mode, inlined reference: go_package is treated as file metadata (only the first go_package const survives inlining, and the Go_package const is exempt from the declaration comparison); an error caused solely by several combined files carrying go_package is reported under its own signature C18|combined|error-on-acyclic|go_package-const-of-several-files-collides",
 		"the decoy oracle looks for the substring 'ecoy' (only decoy files contain it) in the output or error; apart from that and the word 'cycle' no error wording is asserted",
@@ -631,6 +642,7 @@ func doReplay(x *explorer, path string) int {
 		N         int               `json:"n"`
 		Pairs     [][2]int          `json:"edge_pairs"`
 		Pkgs      []string          `json:"go_packages"`
+		Hollow    []bool            `json:"hollow"`
 		Mode      string            `json:"mode"`
 		Placement map[string]string `json:"placement"`
 		Files     map[string]string `json:"files"`
@@ -641,6 +653,9 @@ func doReplay(x *explorer, path string) int {
 		fatalf("replay case is not a C18 case: %v", err)
 	}
 	s := specFromEdges(c.N, c.Pairs).withPkgs(c.Pkgs)
+	if len(c.Hollow) == c.N {
+		s.Hollow = c.Hollow
+	}
 	p := placement{c.Placement["kind"], c.Placement["style"]}
 	e := derive(s)
 	fmt.Printf("replaying %s\n  graph %s  go_packages %q  mode %s  placement %s  shape %s\n  reference expects: %s\n",
@@ -698,4 +713,14 @@ func doReplay(x *explorer, path string) int {
 
 func indent(s string) string {
 	return "      " + strings.ReplaceAll(strings.TrimRight(s, "\n"), "\n", "\n      ") + "\n"
+}
+
+// reachable: file h is reached from the root by the import worklist.
+func reachable(s *spec, h int) bool {
+	for _, i := range derive(s).Reach {
+		if i == h {
+			return true
+		}
+	}
+	return false
 }
